@@ -157,8 +157,16 @@ RadioTapParser::RadioTapParser(const vector<uint8_t>& buffer)
         load_current_flags();
         current_bit_ = 0;
         current_ptr_ = find_options_start();
-        // Skip all fields and make this point to the first flags one
-        advance_to_first_field();
+        // Skip all fields and make this point to the first flags one. If
+        // this namespace has none, try the following ones
+        bool found = advance_to_first_field();
+        while (!found && advance_to_next_namespace()) {
+            current_bit_ = 0;
+            found = advance_to_first_field();
+        }
+        if (!found) {
+            current_bit_ = MAX_RADIOTAP_FIELD;
+        }
     }
 }
 
@@ -195,18 +203,17 @@ bool RadioTapParser::advance_field() {
     if (skip_current_field()) {
         return true;
     }
-    // Try to find the next namespace, as we've exhausted the current one
-    if (!advance_to_next_namespace()) {
-        current_bit_ = MAX_RADIOTAP_FIELD;
-        return false;
+    // Try to find the next namespace that has fields, as we've exhausted
+    // the current one
+    while (advance_to_next_namespace()) {
+        current_bit_ = 0;
+        // Try to find the first field in this new namespace
+        if (advance_to_first_field()) {
+            return true;
+        }
     }
-    current_bit_ = 0;
-    // Try to find the first field in this new namespace
-    if (!advance_to_first_field()) {
-        current_bit_ = MAX_RADIOTAP_FIELD;
-        return false;
-    }
-    return true;
+    current_bit_ = MAX_RADIOTAP_FIELD;
+    return false;
 }
 
 bool RadioTapParser::advance_namespace() {
@@ -300,7 +307,8 @@ bool RadioTapParser::skip_current_field() {
 bool RadioTapParser::advance_to_next_namespace() {
     const uint32_t initial_index = namespace_index_;
     const RadioTapFlags* flags = get_flags_ptr();
-    while (flags->ext == 1) {
+    // Move one set of flags forward: the ones in between have fields as well
+    if (flags->ext == 1) {
         if (is_field_set(29, flags)) {
             current_namespace_ = RADIOTAP_NS;
         }
